@@ -64,6 +64,8 @@ class RTDCBase(abc.ABC):
         self._usertemp = {}
         # List of :class:`.Basin` for external features
         self._basins = None
+        # Basins retrieved so far while `basins_retrieve` is running
+        self._basins_partial = None
         # List of basin identifiers that should be ignored, used to
         # avoid circular basin dependencies
         self._basins_ignored = []
@@ -201,7 +203,16 @@ class RTDCBase(abc.ABC):
         """Basins containing upstream features from other datasets"""
         if self._basins is None:
             if self._enable_basins:
-                self._basins = self.basins_retrieve()
+                if self._basins_partial is not None:
+                    # Re-entrant call: a mapped basin that is being verified
+                    # is looking for its mapping feature. Offer the basins
+                    # that have been retrieved so far.
+                    return self._basins_partial
+                self._basins_partial = []
+                try:
+                    self._basins = self.basins_retrieve()
+                finally:
+                    self._basins_partial = None
             else:
                 self._basins = []
         return self._basins
@@ -314,7 +325,8 @@ class RTDCBase(abc.ABC):
                     #  that due to some iterative process `self`
                     #  gets re-initialized and we have to go through this
                     #  again.
-                    self._basins.remove(bn)
+                    if bn in self.basins:
+                        self.basins.remove(bn)
                     warnings.warn(
                         f"Removed unavailable basin {bn} from {self}")
                 except BaseException:
@@ -470,6 +482,13 @@ class RTDCBase(abc.ABC):
     def features_basin(self):
         """All features accessed via upstream basins from other locations"""
         if self._basins_features is None:
+            if self._basins is None and self._basins_partial is not None:
+                # basins are being retrieved: do not cache an interim result
+                features = []
+                for bn in list(self._basins_partial):
+                    if bn.is_available():
+                        features += bn.features
+                return sorted(set(features))
             if self.basins:
                 features = []
                 for bn in self.basins:
@@ -832,7 +851,7 @@ class RTDCBase(abc.ABC):
             "file"-type basins are only available for subclasses that
             set the `_local_basins_allowed` attribute to True.
         """
-        basins = []
+        basins = [] if self._basins_partial is None else self._basins_partial
         bc = feat_basin.get_basin_classes()
         bdicts = [dict(bd) for bd in self.basins_get_dicts()]
         for bd in bdicts:
